@@ -1296,6 +1296,34 @@ def C06(tier, seed, st):
     res.sample({"case": lines[-1][:200], "impl": impl[-1][:200]})
     res.streams["N"] = len(lines)
     res.streams["R"] = len(rl)
+    # ONE reader object over two consecutive calls (a source is a stream: the second call continues where the first
+    # stopped).  The first call fails k bytes in (error at a response boundary) or succeeds exactly; by conservation
+    # (C06_takes_exactly: what the source still holds afterwards is the rest of the script) the second call must
+    # behave as the model does on the rest alone - bytes a failed call had already received are never reused.
+    n2, exp2 = [], []
+    for n1 in WORD_COUNTS:
+        need1 = n1 + n1 // 3
+        for n2_ in (rng.sample(WORD_COUNTS, 2) if q else WORD_COUNTS):
+            need2 = n2_ + n2_ // 3
+            lang = rng.choice(LANGS)
+            for k in sorted(set([0, 1, need1 // 2, need1 - 1, need1])):
+                for e in (gens.ERR_KINDS if k < need1 else [None]):
+                    first = [(rng.randbytes(k), e)]
+                    second = gens.fragment(rng, rng.randbytes(need2), rng.randrange(1, 4))
+                    second = [(p_, None) for p_ in second]
+                    n2.append("N2 %d %d %s %s %s" % (n1, n2_, lang, gens.script_str(first), gens.script_str(second)))
+                    exp2.append(("N %d %s %s" % (n1, lang, gens.script_str(first)), "N %d %s %s" % (n2_, lang, gens.script_str(second))))
+    i2 = common.run_impl(n2)
+    m2 = common.run_model([x for pr in exp2 for x in pr], "model")
+    for ln, a, k in zip(n2, i2, range(len(n2))):
+        res.evaluations += 1
+        res.count("N2/one-reader-two-calls")
+        res.nontrivial.add(ln)
+        want = m2[2 * k] + " || " + m2[2 * k + 1]
+        if a != want:
+            res.violation(stream="N2", case=ln, impl=a, model=want, spec=want,
+                          why="two calls on one reader object: the second is not the encoding of the bytes the source delivered to IT (bytes of the earlier call reused, or bytes skipped)")
+    res.streams["N2"] = len(n2)
     # draws AFTER failed draws in one process: each is judged from its own script alone
     run_Q(res, failed_draw_histories(rng, q), judge_op_draw)
     # concurrent draws from the default source after failed draws (prelude with a scripted failing source)
